@@ -22,22 +22,54 @@ def build_dsl(prims, forbidden):
     return dsl
 
 
+def pos_wire(S):
+    from synth.syntax.type_system import UnknownType
+    if isinstance(S[0], UnknownType):
+        return []
+    return [O.ty_wire(S[0]), S[1][0][1]]
+
+
+def derivations(cfg, ps, bits):
+    """derive_all / reduce_derivations on the members (never non-terminal names:
+    a position is (type, depth), the end marker is [])."""
+    out = []
+    for p, b in zip(ps, bits):
+        if not b:
+            out.append([])
+            continue
+        info, cur = cfg.derive_all(cfg.start_information(), cfg.start, p)
+        red = cfg.reduce_derivations(
+            lambda acc, S, P, v: acc + [[O.ty_wire(S[0]), S[1][0][1], O.sym_wire(P), len(v[0])]], [], p)
+        out.append([[pos_wire(S) for S in cur], red, len(info)])
+    return out
+
+
 def impl(case):
     params, progs = case["data"]
     prims, forbidden, request, max_depth, min_var, n_gram, const_types = params
     dsl = build_dsl(prims, forbidden)
     treq = O.ty(request)
     consts = {O.ty(t) for t in const_types}
-    cfg = CFG.depth_constraint(dsl, treq, max_depth, min_var, n_gram, False, consts)
+    if case["kind"].startswith("inf/"):
+        # max_depth -1: through depth_constraint; -2: CFG.infinite called directly
+        if max_depth == -1:
+            cfg = CFG.depth_constraint(dsl, treq, -1, n_gram=n_gram, constant_types=consts)
+        else:
+            cfg = CFG.infinite(dsl, treq, n_gram, False, consts)
+    else:
+        cfg = CFG.depth_constraint(dsl, treq, max_depth, min_var, n_gram, False, consts)
     ps = [O.prog(w) for w in progs]
     out = {"in": [1 if p in cfg else 0 for p in ps]}
     out["count"] = cfg.programs()
+    out["derivs"] = derivations(cfg, ps, out["in"])
     rules = []
     for Snt in cfg.rules:
         for Pd in cfg.rules[Snt]:
             rules.append([O.ty_wire(Snt[0]), Snt[1][0][1], O.sym_wire(Pd)])
     out["rules"] = rules
     out["treq"] = O.ty_wire(cfg.type_request)
+    if case["kind"].startswith("inf/"):
+        return out
     dsl2 = build_dsl(prims, forbidden)
     ucfg = UCFG.depth_constraint(dsl2, treq, max_depth, min_var, n_gram, False, consts)
     out["in_u"] = [1 if p in ucfg else 0 for p in ps]
